@@ -33,6 +33,11 @@ LOCAL_POST = [b'', b'b', b'.b', b'"', b'".b', b' "', b'\n "', b'\n\tx"', b'\\"',
 
 def local_sweep():
     out = []
+    # words of 63-1025 octets (a counter kept in a narrow type wraps at 256) before / after each structural character
+    for n in (63, 64, 65, 127, 128, 129, 254, 255, 256, 257, 511, 512, 513, 1024, 1025):
+        w = b'a' * n
+        for v in (w + b'"b"', w + b'.b', b'a.' + w + b'"c"', b'"' + w + b'"', w + b'..b', w + b'.', b'"' + w + b'"x', w + b'\\', b'"' + w, w + b' ', w + b'\xd0\xb0"b"', b'"a".' + w + b'"b"'):
+            out.append('L %s -' % hx(v))
     for pre in LOCAL_PRE:
         for post in LOCAL_POST:
             for c in range(1, 256):
